@@ -16,6 +16,7 @@ import (
 
 type Clause struct {
 	Scope   []string // the clause applies only to calls made (transitively) from functions whose name contains one of these
+	Outside bool     // ... or, with `outside`, to every call NOT made from one of them
 	Props   []string // property ids named in the clause's trailing comment: the clause belongs to these only
 	Text    string
 	Expr    Expr
@@ -551,7 +552,9 @@ func (cs *ContractSet) parseLines(fname string, lines []struct {
 			cur, curLemma = nil, nil
 		case "requires":
 			var scope []string
-			if w2, r2 := splitWord(rest); w2 == "in" {
+			outside := false
+			if w2, r2 := splitWord(rest); w2 == "in" || w2 == "outside" {
+				outside = w2 == "outside"
 				if i := strings.Index(r2, ":"); i >= 0 {
 					for _, sc := range strings.Split(r2[:i], ",") {
 						scope = append(scope, strings.TrimSpace(sc))
@@ -562,6 +565,7 @@ func (cs *ContractSet) parseLines(fname string, lines []struct {
 			if len(scope) > 0 && cur != nil {
 				if c := mkClause(rest, l.line, len(cur.Requires)+1); c != nil {
 					c.Scope = scope
+					c.Outside = outside
 					cur.Requires = append(cur.Requires, c)
 				}
 				continue
